@@ -949,7 +949,7 @@ pub fn gen_group_case(bytes: &[u8], gp: &GroupProfile) -> GroupCase {
                     2 => vec![crate::world::Step::Yield(true)],
                     _ => vec![crate::world::Step::Never],
                 };
-                ops.push(GOp::Insert(ChildSpec::Leaf(crate::spec::LeafSpec { script, always: false, hint: false })));
+                ops.push(GOp::Insert(ChildSpec::Leaf(crate::spec::LeafSpec { script, always: false, hint: false, dropwake: false })));
             }
             continue;
         }
